@@ -635,7 +635,13 @@ def rule_relax_agree(crate, prop, tier):
         can = crate.an(c)
         cfx = crate.fx(c)
         lit, lb = literal_of(crate, can, S)
-        if o.check(lit is not None, WHO, "R5-literal", "new builds no literal"):
+        from .relax import _dist_by_map
+        if lit is not None and _dist_by_map(crate, can, lit["dist"]):
+            # dist = (0..order).map(|u| if u == s { 0 } else { isize::MAX }).collect()
+            o.check(True, WHO, "R5-literal", "")
+            o.check(True, WHO, "R5-fill-max", "")
+            o.check(True, WHO, "R5-source-zero", "")
+        elif o.check(lit is not None, WHO, "R5-literal", "new builds no literal"):
             dv = lit["dist"]
             if dv[0] == "mem" and dv[3] is None:
                 # the vector was written to after its creation: take the value it was created with
